@@ -24,6 +24,12 @@ void X__ZNSt8ios_base4InitD1Ev(u8 *p) { (void)p; }
 void X__ZNKSt5ctypeIcE13_M_widen_initEv(u8 *p) { (void)p; }
 void X__ZNSt9basic_iosIcSt11char_traitsIcEE5clearESt12_Ios_Iostate(u8 *p, u32 s) { (void)p; (void)s; }
 u64 X__ZNSt6chrono3_V212system_clock3nowEv(void) { return nondet_u64(); }
+#ifdef __CPROVER__
+u64 X__ZNSt6chrono3_V212steady_clock3nowEv(void) { return nondet_u64(); }
+#else
+/* native model runs (schedule search): a clock that sometimes jumps far ahead, so that time-outs of timed waits do fire */
+u64 X__ZNSt6chrono3_V212steady_clock3nowEv(void) { static u64 t = 1000; t += (rand() % 3 == 0) ? 60000000000ULL : 1000; return t; }
+#endif
 u32 X_vsnprintf(u8 *buf, u64 n, u8 *fmt, u8 *ap) { (void)fmt; (void)ap; if (n) buf[0] = 0; return 0; }
 /* strlen: a harness may announce the (concrete) length of the next string so that symbolic CONTENT does not make the length symbolic;
    the announcement is checked as an assumption (string has no NUL before and a NUL at that index) */
